@@ -461,12 +461,18 @@ func genEdit(c *simrt.Choices, u *Universe, g genCfg, snapshots []*Universe) (*U
 		s := lab()
 		done := false
 		for i := range s.Outs {
+			// what the command puts into the directory is not part of the target definition: an
+			// edit back to "directory" yields the directory the command produced before
 			if s.Outs[i].Kind == "file" {
-				s.Outs[i].Kind, s.Outs[i].Tree = "dir", []TreeEnt{{Rel: "x.dat", Kind: "file"}}
+				tree := []TreeEnt{{Rel: "x.dat", Kind: "file"}}
+				if s.Outs[i].Stash != nil {
+					tree = s.Outs[i].Stash
+				}
+				s.Outs[i].Kind, s.Outs[i].Tree, s.Outs[i].Stash = "dir", tree, nil
 				done = true
 				break
 			} else if s.Outs[i].Kind == "dir" {
-				s.Outs[i].Kind, s.Outs[i].Tree = "file", nil
+				s.Outs[i].Kind, s.Outs[i].Stash, s.Outs[i].Tree = "file", s.Outs[i].Tree, nil
 				done = true
 				break
 			}
